@@ -22,9 +22,15 @@ def sh(cmd, **kw):
     return r.returncode, r.stdout + r.stderr
 
 
+ARGS = [a for a in sys.argv[1:] if not a.startswith("--")]
+OPTS = dict(a[2:].split("=", 1) for a in sys.argv[1:] if a.startswith("--"))
+SRC = OPTS.get("src", "/tmp/twin_%s/twin_out")  # --src=/tmp/twin2_%s/twin_out --tag=r2-
+TAG = OPTS.get("tag", "")
+
+
 def one(mod, k):
-    name = f"{mod}-{k}"
-    src = f"/tmp/twin_{mod}/twin_out/twin{k}"
+    name = f"{mod}-{TAG}{k}"
+    src = (SRC % mod) + f"/twin{k}"
     if not os.path.exists(src + "/patch.diff"):
         return name, {"error": "missing"}
     wt = tempfile.mkdtemp(prefix=f"ct_{name}_", dir="/tmp"); os.rmdir(wt)
@@ -66,7 +72,7 @@ def one(mod, k):
     return name, res
 
 
-jobs = [(m, k) for m in (sys.argv[1:] or MODS) for k in range(1, 6)]
+jobs = [(m, k) for m in (ARGS or MODS) for k in range(1, int(OPTS.get("n", 5)) + 1)]
 with cf.ThreadPoolExecutor(max_workers=4) as ex:
     for name, res in ex.map(lambda j: one(*j), jobs):
         print(name, "confirmed" if res.get("confirmed") else "NOT-CONFIRMED", res.get("tests"), "equiv", res.get("equiv_identical"), res.get("checks"), res.get("error", ""), flush=True)
